@@ -14,3 +14,18 @@ PROPS["C18"] = {
     "legs": [{"fam": "manifam", "run": "^TestC18$"}],
     "timeout": {"quick": 600, "thorough": 1800},
 }
+PROPS["C13"] = {
+    "level": "exploration",
+    "exhaustive": {"quick": False, "thorough": False},
+    "rule": "rapid-generated package.json documents (3 dependency sections in any combination, peerDependencies and unrelated nested keys, plain/scoped/dotted/special names, npm: aliases, non-registry specifiers, arbitrary key order, indentation, colon style, CRLF, compact layout, trailing newline) and pom.xml documents (namespaced project, optional local parent in 5 placements, properties, dependencies, dependencyManagement, version-less managed declarations, default-active and inactive profiles, pluginManagement and build plugins, comments, CDATA, entity references, versions literal / ${p} / prefix${p} / ${p}suffix / ${p}.${q}, shared properties) x update sets addressed to requirements present in the file; one evaluation = write + re-read of one (document, update set); non-trivial = Write returned nil for >= 1 update; distinct by hash of the case JSON",
+    "assumptions": ["updates are addressed the way remediation.ConstructPatches (FixVulns) builds them from the requirement list the reader returns (name, version as read, dep.Type of the requirement); dependencies of inactive profiles and of pluginManagement plugins, which only the Update path reaches, the way the Maven suggester builds them (literal versions only)",
+                    "all generated parents are local files (no network); dependencyManagement imports and repositories are not generated",
+                    "a package name carries a version in at most one declaration of the effective model (plus version-less declarations managed elsewhere)",
+                    "pom.xml preservation is judged on the encoding/xml token tree with adjacent character data merged (CDATA and escaped text are the same text)"],
+    "engine": "rapid",
+    "technique": "property-based testing with layout-aware generators; byte-exact expected rendering (package.json), token-tree comparison plus an independent reading of every dependency declaration (pom.xml), round trip through the reader",
+    "level_text": "Randomised exploration of generated documents and update sets; each case checks no panic, round trip through the reader, and preservation of everything else.",
+    "level_note": "Trusted: the harness's own JSON renderer, its pom.xml renderer and its encoding/xml based reading of dependency declarations and property scopes.",
+    "legs": [{"fam": "manifam", "run": "^TestC13_(npm|pom)$"}],
+    "timeout": {"quick": 600, "thorough": 1800},
+}
